@@ -5,9 +5,7 @@
   slice selects `range(*slice.indices(dim))` (`Spec.pyAdjust`, CPython's rule), integers wrap once,
   values broadcast from the right.
 
-  The file also holds the op language's grammar (`WFOp`: what the property quantifies over) and the
-  decidable regions `Excluded…` on which the unchanged code is known to differ from this
-  specification (they are evaluated by the driver to attribute failing cases to known findings).
+  The file also holds the op language's grammar (`WFOp`: what the property quantifies over).
 -/
 import SparseV.Model.Dok
 namespace SparseV.Spec
@@ -136,19 +134,19 @@ def dSetFancy (shape : List Nat) (a : Dense α) (idxs : List (List Int)) (v : Va
     | .ok xs => .ok (assignAll a (keys.zip xs))
 
 /-- the keys a boolean mask selects, in row-major order -/
-def maskKeys (shape : List Nat) (m : List Bool) : List DKey :=
+def maskSel (shape : List Nat) (m : List Bool) : List DKey :=
   ((allKeys shape).zip m).filterMap fun kb => if kb.2 then some kb.1 else none
 
 /-- NumPy `a[mask] = value` -/
 def dSetMask (shape : List Nat) (a : Dense α) (m : List Bool) (v : Val α) : Except Err (Dense α) :=
   if m.length ≠ prod shape then .error .index
   else
-    match listVals v (maskKeys shape m).length with
+    match listVals v (maskSel shape m).length with
     | .error e => .error e
-    | .ok xs => .ok (assignAll a ((maskKeys shape m).zip xs))
+    | .ok xs => .ok (assignAll a ((maskSel shape m).zip xs))
 
 def dStep (shape : List Nat) (a : Dense α) : Op α → Except Err (Dense α)
-  | .set _ key v => dSetitem shape a key v
+  | .set key v => dSetitem shape a key v
   | .fancy idxs v => dSetFancy shape a idxs v
   | .mask m v => dSetMask shape a m v
 
@@ -169,80 +167,22 @@ def stepNonzero : KeyPart → Bool
 /-- "broadcastable array values": the value can be broadcast to what the key selects (nothing is asked
 when the key itself is rejected) -/
 def valueFits (shape : List Nat) : Op α → Bool
-  | .set _ key v =>
+  | .set key v =>
     match pySels (padKey key shape.length) shape with
     | .ok sels => Broadcastable v (gridShape sels)
     | .error _ => true
   | .fancy idxs v => (listVals v (idxs.headD []).length).toBool
-  | .mask m v => (listVals v (maskKeys shape m).length).toBool
+  | .mask m v => (listVals v (maskSel shape m).length).toBool
 
 /-- the assignments property C12 quantifies over: slices have a non-zero step; integer lists come
-one per axis with a common length; masks have the array's size; the data of a value has the size
-its shape says; the value is broadcastable to the selection -/
+one per axis (at least one axis) with a common length; masks have the array's size (rank at least 1);
+the data of a value has the size its shape says; the value is broadcastable to the selection -/
 def WFOp (shape : List Nat) (op : Op α) : Bool :=
   valueFits shape op &&
   match op with
-  | .set _ key v => key.all stepNonzero && v.flat.length == prod v.shape
-  | .fancy idxs v => idxs.length == shape.length && idxs.all (fun l => l.length == (idxs.headD []).length)
-      && v.flat.length == prod v.shape
-  | .mask m v => m.length == prod shape && v.flat.length == prod v.shape
-
-/-! ### regions where the unchanged code is known to differ from this specification -/
-
-/-- `DOK._setitem` reads `ind.start or self.shape[i] - 1` for a negative step: a normalised start of
-`0` is taken for "missing".  Region: negative step, normalised start 0, extent above 1. -/
-def ExcludedSlice (a b c : Option Int) (dim : Nat) : Bool :=
-  let t := normalizeSlice a b c dim
-  decide (t.2.2 < 0) && decide (t.1 = 0) && decide (1 < dim)
-
-def ExcludedParts : List KeyPart → List Nat → Bool
-  | .slice a b c :: ps, d :: ds => ExcludedSlice a b c d || ExcludedParts ps ds
-  | .int _ :: ps, _ :: ds => ExcludedParts ps ds
-  | _, _ => false
-
-/-- finding F-dok-negstep-start0 -/
-def Excluded_negStepStart0 (shape : List Nat) (key : List KeyPart) : Bool :=
-  ExcludedParts (padKey key shape.length) shape
-
-/-- `_fancy_setitem` stores index entries as given: a negative or too large entry is neither
-wrapped nor rejected.  Region: some entry outside `[0, dim)`. -/
-def entriesInRange : List (List Int) → List Nat → Bool
-  | [], [] => true
-  | l :: ls, d :: ds => l.all (fun i => decide (0 ≤ i) && decide (i < (d : Int))) && entriesInRange ls ds
-  | _, _ => false
-
-/-- finding F-dok-fancy-raw-index -/
-def Excluded_fancyRawIndex (shape : List Nat) (idxs : List (List Int)) : Bool :=
-  !entriesInRange idxs shape
-
-/-- finding F-dok-1d-int-tuple: on a 1-d array a *tuple* of integers (`d[i,] = x`) is taken for an index
-list and routed to `_fancy_setitem`: a negative or too large `i` is stored as given, and two integers
-(`d[1, 2] = x`, too many indices for NumPy) set two elements.  Region: that route is taken and the key
-is not a single integer inside `[0, dim)`. -/
-def Excluded_tupleRoute (shape : List Nat) (bare : Bool) (key : List KeyPart) : Bool :=
-  match tupleRoute shape bare key with
-  | some ints => !(ints.length == 1 && entriesInRange [ints] shape)
-  | none => false
-
-/-- finding F-dok-fancy-empty: empty index lists are rejected (float64 by default) -/
-def Excluded_fancyEmpty (idxs : List (List Int)) : Bool :=
-  (idxs.headD []).isEmpty
-
-/-- finding F-dok-fancy-bcast1: a one-element array value is not broadcast over the listed elements -/
-def Excluded_fancyBcast1 (idxs : List (List Int)) (v : Val α) : Bool :=
-  v.shape == [1] && (idxs.headD []).length != 1
-
-/-- finding F-dok-empty-tuple-key: `d[()] = v` is taken for an assignment through index lists and
-raises (IndexError on 0-d and 1-d arrays, NotImplementedError above); NumPy assigns to every element -/
-def Excluded_emptyTupleKey (bare : Bool) (key : List KeyPart) : Bool :=
-  key.isEmpty && !bare
-
-/-- the union of the known regions, per op (boolean masks are not supported at all:
-finding F-dok-boolmask) -/
-def Excluded (shape : List Nat) : Op α → Bool
-  | .set bare key _ => Excluded_negStepStart0 shape key || Excluded_tupleRoute shape bare key
-      || Excluded_emptyTupleKey bare key
-  | .fancy idxs v => Excluded_fancyRawIndex shape idxs || Excluded_fancyEmpty idxs || Excluded_fancyBcast1 idxs v
-  | .mask _ _ => true
+  | .set key v => key.all stepNonzero && v.flat.length == prod v.shape
+  | .fancy idxs v => !idxs.isEmpty && idxs.length == shape.length
+      && idxs.all (fun l => l.length == (idxs.headD []).length) && v.flat.length == prod v.shape
+  | .mask m v => !shape.isEmpty && m.length == prod shape && v.flat.length == prod v.shape
 
 end SparseV.Spec
